@@ -8,6 +8,7 @@ import (
 	"errors"
 	"fmt"
 	"io"
+	"regexp"
 	"runtime"
 	"sort"
 	"strings"
@@ -722,6 +723,8 @@ func wiresOf(ss []stmt) []string {
 	return ws
 }
 
+var reEndTag = regexp.MustCompile(`</[^>]*>`)
+
 // wsOnlyDiff: "literal-whitespace" when the two statement lists are equal as multisets (blank nodes
 // blinded) once all white space is removed from literal lexical forms; "" otherwise.
 func wsOnlyDiff(a, b []stmt) string {
@@ -734,6 +737,11 @@ func wsOnlyDiff(a, b []stmt) string {
 			q := s.quad
 			if l, ok := q.Triple.Object.(rdf.Literal); ok {
 				l.LexicalForm = strings.Join(strings.Fields(l.LexicalForm), "")
+				if strings.HasSuffix(string(l.Datatype), "#XMLLiteral") || strings.HasSuffix(string(l.Datatype), "#HTML") {
+					// markup literals: `<t> </t>` and `<t/>` are the same up to white-space-only text
+					l.LexicalForm = reEndTag.ReplaceAllString(l.LexicalForm, "")
+					l.LexicalForm = strings.ReplaceAll(l.LexicalForm, "/>", ">")
+				}
 				q.Triple.Object = l
 			}
 			out[i] = vh.QuadWire(q, func(rdf.BlankNode) string { return "_" })
